@@ -61,6 +61,18 @@ func verifBoundaryScalars() [][]byte {
 	return out
 }
 
+// vexpand builds an expanded point and (half of the time) scribbles over the value returned by its accessor:
+// what an accessor returns is the caller's to modify, the expanded point must not change with it
+func vexpand(g *vpool, p *EdwardsPoint) *ExpandedEdwardsPoint {
+	ep := NewExpandedEdwardsPoint(p)
+	if g.r.Intn(2) == 0 {
+		q := ep.Point()
+		q.Neg(q)
+		q.Add(q, ED25519_BASEPOINT_POINT)
+	}
+	return ep
+}
+
 type vmul struct {
 	g   *vpool
 	bd  [][]byte
@@ -262,7 +274,7 @@ func TestVerifRecC03(t *testing.T) {
 			if kind == "dsm" {
 				o.DoubleScalarMulBasepointVartime(vscalar(a), A, vscalar(b))
 			} else {
-				o.ExpandedDoubleScalarMulBasepointVartime(vscalar(a), NewExpandedEdwardsPoint(A), vscalar(b))
+				o.ExpandedDoubleScalarMulBasepointVartime(vscalar(a), vexpand(g, A), vscalar(b))
 			}
 			m.emit(kind, []*EdwardsPoint{A, B}, [][2]interface{}{{a, 0}, {b, 1}}, &o, nil)
 		case "msm", "msmvt":
@@ -279,7 +291,7 @@ func TestVerifRecC03(t *testing.T) {
 			pts, terms, ss, ps := m.terms(ks + kd)
 			var sp []*ExpandedEdwardsPoint
 			for _, p := range ps[:ks] {
-				sp = append(sp, NewExpandedEdwardsPoint(p))
+				sp = append(sp, vexpand(g, p))
 			}
 			o.ExpandedMultiscalarMulVartime(ss[:ks], sp, ss[ks:], ps[ks:])
 			m.emit(kind, pts, terms, &o, vev{"nstatic": ks})
@@ -327,7 +339,7 @@ func TestVerifRecC03(t *testing.T) {
 		pts, terms, ss, ps := m.terms(sd[0] + sd[1])
 		var sp []*ExpandedEdwardsPoint
 		for _, p := range ps[:sd[0]] {
-			sp = append(sp, NewExpandedEdwardsPoint(p))
+			sp = append(sp, vexpand(g, p))
 		}
 		var o EdwardsPoint
 		o.ExpandedMultiscalarMulVartime(ss[:sd[0]], sp, ss[sd[0]:], ps[sd[0]:])
